@@ -22,7 +22,8 @@ Mod(c, m) == CASE m[1] = "verb" -> [c EXCEPT !.verb = m[2]]
                [] m[1] = "cenc" -> [c EXCEPT !.cenc = m[2]]
                [] m[1] = "clen" -> [c EXCEPT !.clen = m[2]]
 (* (one comprehension: TLC's union of large sets is quadratic)             *)
-LexUpTo2 == {Mod(c, m) : c \in LexAlone, m \in Mods}
+LexUpTo2 == {r \in {Mod(c, m) : c \in LexAlone, m \in Mods} :
+               HdrPosConsistent(r)}
 
 EmitLex == PrintT(<<"LEX1", {Tup(c) : c \in LexAlone}>>)
 =============================================================================
